@@ -21,10 +21,17 @@ def scratch():
     global _scratch
     if _scratch is None:
         _scratch = os.path.join(SCRATCH_BASE, "xcp-verif.%d" % os.getpid())
-        shutil.rmtree(_scratch, ignore_errors=True)
+        rmtree(_scratch)
         os.makedirs(_scratch)
-        atexit.register(lambda: shutil.rmtree(_scratch, ignore_errors=True))
+        atexit.register(lambda: rmtree(_scratch))
     return _scratch
+
+def rmtree(path):
+    """Remove a tree of any depth (a misbehaving copy can nest thousands of levels: rm(1) copes, shutil's recursion does not)."""
+    if isinstance(path, bytes):
+        path = os.fsdecode(path)
+    if os.path.lexists(path):
+        subprocess.run(["rm", "-rf", "--", path], stdout=subprocess.DEVNULL, stderr=subprocess.DEVNULL)
 
 def log(*a):
     print(*a, file=sys.stderr, flush=True)
